@@ -11,7 +11,8 @@ def run(ctx):
     ctx.model_check("Usm", "privacy", constants=U.PINS, invariants=U.INV_C11, must_cover=["Encode", "Decode"])
     rnd = random.Random(ctx.seed)
     S = []
-    pws = [b"privsecret", b"p", b"0123456789abcdef", b"x" * 64, b"y" * 300] + [bytes(rnd.randrange(33, 127) for _ in range(rnd.randint(1, 80))) for _ in range(6 if q else 40)]
+    pws = [b"privsecret", b"p", b"0123456789abcdef", b"x" * 64, b"y" * 300, b"0x" + b"3f9a" * 8, b"0X" + b"AB" * 20, b"0x", b"0xcafe",
+           b"md5:secret", b"sha1:secret", b"$1$salt$hash", b"\x00binary\xff", b" leading and trailing "] + [bytes(rnd.randrange(33, 127) for _ in range(rnd.randint(1, 80))) for _ in range(6 if q else 40)]
     for h in ("md5", "sha1"):
         for pw in pws:
             for op in (drv_usm.OPS if not q else rnd.sample(drv_usm.OPS, 4) + ["set"]):
